@@ -8,7 +8,8 @@
 // ASM mode nbCells eps nNets { nPins w {cell off}*nPins fx [mn mx] }*nNets npl {pl}*npl pen [cutoff {target strength}*nbCells]
 //   mode: 0 createStar(topo) 1 B2B 2 Star 3 Clique 4 LightStar (create(topo,pl,eps,model)) 5 addBipoint(net) 6 addClique(net)
 //   fx=1: 5-argument addNet with finite minPin/maxPin; fx=0: 3-argument addNet
-//   result: "n | r c num e;... | num e;... (rhs) | (initial) | (netWeight read back) # IX=<FE_INEXACT raised> H=<OK|BAD ...>"
+//   result: "n | r c num e;... | num e;... (rhs) | (initial) | (netWeight read back) | (normalised triplets) | (normalised rhs) # IX=<FE_INEXACT raised> H=<OK|BAD ...>"
+//   (normalised = what MatrixCreator::solve hands to Eigen: check(); normalize(); finalize())
 //   (a value that is not finite is printed "inf 0", "-inf 0" or "nan 0", one above 2^62 "huge 0")
 //   (system after finalize(); H = the harness's own homogeneity test: weights and strengths times 2 and times 1/2 must give
 //    exactly 2 / 0.5 times every triplet and rhs entry before finalize())
@@ -86,7 +87,7 @@ static NetModel buildNM(const Body &b, float f) {
 }
 static NetModelOption optOf(int mode) { return mode == 1 ? NetModelOption::BoundToBound : mode == 2 ? NetModelOption::Star : mode == 3 ? NetModelOption::Clique : NetModelOption::LightStar; }
 
-struct Sys { std::vector<Eigen::Triplet<float>> mat; std::vector<float> rhs, init; size_t pre; bool inexact; };
+struct Sys { std::vector<Eigen::Triplet<float>> mat, nmat; std::vector<float> rhs, init, nrhs; size_t pre; bool inexact; };   // nmat, nrhs: what solve() hands to Eigen: check(); normalize(); finalize()
 __attribute__((noinline)) static Sys assembleSt(const NetModel &nm, const Body &b, const std::vector<float> &st) {
   std::feclearexcept(FE_ALL_EXCEPT);
   MatrixCreator mc = b.mode == 0 ? MatrixCreator::createStar(nm)
@@ -95,9 +96,12 @@ __attribute__((noinline)) static Sys assembleSt(const NetModel &nm, const Body &
   if (b.mode == 6) for (int i = 0; i < nm.nbNets(); ++i) mc.addClique(i);
   if (b.pen) mc.addPenalty(b.pl, b.tg, st, b.cutoff);
   Sys s; s.pre = mc.mat_.size();
+  MatrixCreator mn = mc;                       // the path of MatrixCreator::solve up to the call of Eigen
   mc.check(); mc.finalize();
   s.inexact = std::fetestexcept(FE_INEXACT) != 0;
   s.mat = mc.mat_; s.rhs = mc.rhs_; s.init = mc.initial_;
+  mn.check(); mn.normalize(); mn.finalize();
+  s.nmat = mn.mat_; s.nrhs = mn.rhs_;
   return s;
 }
 static Sys assemble(const NetModel &nm, const Body &b, float f) {
@@ -127,6 +131,8 @@ static void runAsm(Rd &r) {
   out += " | "; for (size_t i = 0; i < s.rhs.size(); ++i) { out += (i ? ";" : ""); out += showf(s.rhs[i]); }
   out += " | "; for (size_t i = 0; i < s.init.size(); ++i) { out += (i ? ";" : ""); out += showf(s.init[i]); }
   out += " | "; for (int i = 0; i < nm.nbNets(); ++i) { out += (i ? ";" : ""); out += showf(nm.netWeight(i)); }
+  out += " | "; for (size_t i = 0; i < s.nmat.size(); ++i) { snprintf(buf, 96, "%s%d %d %s", i ? ";" : "", s.nmat[i].row(), s.nmat[i].col(), showf(s.nmat[i].value()).c_str()); out += buf; }
+  out += " | "; for (size_t i = 0; i < s.nrhs.size(); ++i) { out += (i ? ";" : ""); out += showf(s.nrhs[i]); }
   std::string h;
   for (float f : {2.0f, 0.5f}) { NetModel nk = buildNM(b, f); Sys sk = assemble(nk, b, f); h = homog(s, sk, f); if (!h.empty()) break; }
   snprintf(buf, 96, " # IX=%d H=", s.inexact ? 1 : 0); out += buf; out += h.empty() ? "OK" : h;
@@ -152,6 +158,8 @@ static void runFasm(Rd &r) {
     out += " | "; for (size_t i = 0; i < s.rhs.size(); ++i) { out += (i ? ";" : ""); out += bitsf(s.rhs[i]); }
     out += " | "; for (size_t i = 0; i < s.init.size(); ++i) { out += (i ? ";" : ""); out += bitsf(s.init[i]); }
     out += " | "; for (int i = 0; i < nm.nbNets(); ++i) { out += (i ? ";" : ""); out += bitsf(nm.netWeight(i)); }
+    out += " | "; for (size_t i = 0; i < s.nmat.size(); ++i) { out += (i ? ";" : ""); out += bitsf(s.nmat[i].value()); }
+    out += " | "; for (size_t i = 0; i < s.nrhs.size(); ++i) { out += (i ? ";" : ""); out += bitsf(s.nrhs[i]); }
   }
   printf("%s\n", out.c_str());
 }
@@ -507,6 +515,29 @@ int main(int argc, char **argv) {
         static const char *tols[] = {"8589935 43", "11258999 40", "13743895 37"};
         const char *tol = tols[g.uni(0, 2)]; int maxit = (int)g.uni(100, 1000);
         printf("SOLVE %d %s %d %s\n", kind, tol, maxit, genCoin(g, g.coin(40), m, kind == 2 || kind == 4).c_str());
+      }
+    } else if (what == "self") {
+      // finding F25: SOLVE kind 5 = solve(solveStar(params), params), the first initial step of GlobalPlacer::runInitialLB (no penalty), on
+      // circuits where some cell carries nets of 3-6 pins that are ALL on that cell; every other net has a fixed pin (anchored)
+      static const char *tols[] = {"8589935 43", "11258999 40", "13743895 37", "8589935 33"};
+      for (int i = 0; i < count; ++i) {
+        int m = g.coin(70) ? (g.coin(50) ? 2 : 4) : (int)g.uni(1, 4), nc = (int)g.uni(1, 4), nn = (int)g.uni(1, 4), selfcell = (int)g.uni(0, nc - 1);
+        std::ostringstream s;
+        s << m << " " << nc << " "; if (g.coin(50)) s << "10 0"; else s << qstr(g.uni(410, 40960), 12);
+        s << " " << nn;
+        for (int n = 0; n < nn; ++n) {
+          bool self = n == 0 || g.coin(50); int np = self ? (int)g.uni(3, 6) : (int)g.uni(2, 5);
+          s << " " << np << " " << qstr(g.uni(1, 12), (int)g.uni(0, 2));
+          int c0 = n == 0 ? selfcell : (int)g.uni(0, nc - 1);
+          for (int j = 0; j < np; ++j) {
+            int c = self ? c0 : (j == 0 ? -1 : (int)g.uni(0, nc - 1));
+            s << " " << c << " "; if (g.coin(50)) s << qstr(g.uni(-8, 8), 0); else s << qstr(g.uni(-8192, 8192), 10);
+          }
+          s << " 0";
+        }
+        s << " " << nc; for (int c = 0; c < nc; ++c) s << " 0 0";
+        s << " 0";
+        printf("SOLVE 5 %s %d %s\n", tols[g.uni(0, 3)], (int)g.uni(50, 300), s.str().c_str());
       }
     } else if (what == "solve") {
       for (int i = 0; i < count; ++i) {
